@@ -11,8 +11,8 @@ def qdist (v g : Rat) : Rat := if v - g < 0 then -(v - g) else v - g
 def fl (xs : List Float) : String := joinSp (xs.map floatToHex)
 def ql (xs : List Rat) : String := joinSp (xs.map ratToStr)
 
-def fops : SearchSpace.Ops Float := ⟨Float.ofNat, fun x => (Float.ceil x).toUInt64.toNat, 0.0⟩
-def qops : SearchSpace.Ops Rat := ⟨fun n => (n : Rat), fun x => x.ceil.toNat, 0⟩
+def fops : SearchSpace.Ops Float := ⟨Float.ofNat, fun x => (Float.ceil x).toUInt64.toNat, 0.0, 0.5⟩
+def qops : SearchSpace.Ops Rat := ⟨fun n => (n : Rat), fun x => x.ceil.toNat, 0, mkRat 1 2⟩
 
 def ssErr {α} (sh : α → String) : SearchSpace.SSErr α → String
   | .boundsNotOfSizeTwo c => s!"err BoundsNotOfSizeTwoError {c}"
